@@ -930,10 +930,10 @@ func genCase(t *rapid.T) Case {
 			c.Direct = rapid.IntRange(-1, 0).Draw(t, "direct")
 		}
 
-	case branch >= 87 && branch < 90: // JBIG2 halftone regions from the harness's own segment writer
+	case branch >= 87 && branch < 91: // JBIG2 halftone regions from the harness's own segment writer
 		c.Origin = "jbig2-halftone"
 		h := halftoneSpec{
-			numPats:  rapid.SampledFrom([]int{1, 2, 3, 3, 3, 4, 5, 5, 6, 7, 8, 9, 12, 15, 16, 17}).Draw(t, "numpats"),
+			numPats:  rapid.SampledFrom([]int{1, 2, 3, 3, 4, 5, 5, 6, 6, 7, 8, 9, 12, 13, 16, 17}).Draw(t, "numpats"),
 			patSize:  rapid.SampledFrom([]int{1, 2, 4, 8}).Draw(t, "patsize"),
 			gw:       rapid.IntRange(1, 12).Draw(t, "gw"),
 			gh:       rapid.IntRange(1, 12).Draw(t, "gh"),
